@@ -468,22 +468,41 @@ def build_schema(src, t, hname="h_c13"):
             tok = "F8C-CRASH " + " ".join(log.split("\n")[0:1])[:120]
         res = ("fail", tok)
     else:
-        failmark = os.path.join(d, "compile-failed-" + B.headers_hash())
-        try:
-            if os.path.exists(failmark):      # a failed compilation is remembered per header state
-                raise B.BuildError(open(failmark).read())
-            objs = B.compile_many(cpps, "asan", extra=["-I" + d, "-O0", "-g0"], extra_hash=d)
-            hsrc = os.path.join(B.VERIF, "harness", hname + ".cpp")
-            hh = B.sha(B.read(os.path.join(B.VERIF, "harness", "hcommon.hpp")), B.read(os.path.join(B.VERIF, "harness", "h_c13.cpp")))
-            hobj = B.compile_obj(hsrc, "asan", extra=["-I" + os.path.join(B.VERIF, "harness")], extra_hash=hh)
-            res = ("exe", B.link([hobj] + objs + B.runtime_objs("asan"), hname, "asan"))
-        except B.BuildError as e:
-            open(os.path.join(d, "compile.log"), "w").write(str(e))
-            open(failmark, "w").write(str(e)[-4000:])
-            res = ("fail", "COMPILE-FAIL")
+        failmark = os.path.join(d, "compile-token-" + B.headers_hash())
+        if os.path.exists(failmark):          # a failed compilation is remembered (with its token) per header state
+            res = ("fail", open(failmark).read().strip() or "COMPILE-FAIL")
+        else:
+            try:
+                objs = B.compile_many(cpps, "asan", extra=["-I" + d, "-O0", "-g0", "-fmax-errors=2"], extra_hash=d)
+                hsrc = os.path.join(B.VERIF, "harness", hname + ".cpp")
+                hh = B.sha(B.read(os.path.join(B.VERIF, "harness", "hcommon.hpp")), B.read(os.path.join(B.VERIF, "harness", "h_c13.cpp")))
+                hobj = B.compile_obj(hsrc, "asan", extra=["-I" + os.path.join(B.VERIF, "harness")], extra_hash=hh)
+                res = ("exe", B.link([hobj] + objs + B.runtime_objs("asan"), hname, "asan"))
+            except B.BuildError as e:
+                open(os.path.join(d, "compile.log"), "w").write(str(e))
+                tok = compile_fail_token(str(e))
+                open(failmark, "w").write(tok)
+                res = ("fail", tok)
     with _lock:
         _built[key] = res
     return res
+
+
+def compile_fail_token(log):
+    """COMPILE-FAIL for the listed finding (type names pattern / Tenor that field.hpp does not define),
+    otherwise COMPILE-FAIL plus the first error of the generated code (the identifier names the
+    failing definition)."""
+    import re
+    errs = [l for l in log.split("\n") if "error:" in l]
+    if not errs:
+        return "COMPILE-FAIL (no error line)"
+    first = errs[0]
+    if re.search(r"[‘'`](pattern|Tenor)[’']", first):
+        return "COMPILE-FAIL"
+    msg = first.split("error:", 1)[1].strip()
+    where = os.path.basename(first.split(":", 1)[0])
+    msg = re.sub(r"[^A-Za-z0-9_:<>,.()\[\] -]", "'", msg)
+    return ("COMPILE-FAIL %s: %s" % (where, msg))[:300]
 
 
 def split_case(line):
@@ -688,6 +707,21 @@ def gen_alltypes(rng):
         its = [("f", b.field("STRING"), k == 0)]
         its.insert(rng.randrange(0, 2), shared)
         b.message("Reuse%d" % k, "R%d" % k, its)
+    # one count field with a definition used ONCE and a definition REUSED (different member sets, hence
+    # different hashes and different version numbers V<n>), in both hash orders
+    for tag, once_smaller in (("Vlo", True), ("Vhi", False)):
+        cnt = b.field("NUMINGROUP", "No%s" % tag)
+        d1 = [b.field("STRING"), b.field("INT")]
+        d2 = [b.field("STRING"), b.field("QTY"), b.field("CHAR")]
+        num = {f["name"]: f["num"] for f in b.s["fields"]}
+        h1, h2 = flat_hash([num[x] for x in d1]), flat_hash([num[x] for x in d2])
+        lo, hi = (d1, d2) if h1 < h2 else (d2, d1)
+        once, reused = (lo, hi) if once_smaller else (hi, lo)
+        g_once = ("g", cnt, False, [("f", x, k == 0) for k, x in enumerate(once)])
+        g_re = ("g", cnt, True, [("f", x, k == 0) for k, x in enumerate(reused)])
+        b.message("%sOnce" % tag, "%s1" % tag[1:].upper(), [("f", b.field("STRING"), True), g_once])
+        b.message("%sReA" % tag, "%s2" % tag[1:].upper(), [g_re, ("f", b.field("STRING"), False)])
+        b.message("%sReB" % tag, "%s3" % tag[1:].upper(), [("f", b.field("INT"), False), g_re])
     # components
     inner = [("f", b.field("STRING", "InnerA"), True), ("f", b.field("INT", "InnerB"), False)]
     withgrp = [("f", b.field("STRING", "CgA"), True), grp(1, 2)]
@@ -779,6 +813,35 @@ def rot_l(r):
     return (r ^ (r >> 2) ^ ((r << 5) & 0xffffffff) ^ ((r << 13) & 0xffffffff)) & 0xffffffff
 
 
+def rothash_py(r, v):
+    return (rot_l(r) ^ v ^ 0x80001801) & 0xffffffff
+
+
+def flat_hash(nums):
+    """group_hash of a definition without nested groups (generator side: only used to choose field
+    numbers; every verdict comes from the Coq model)."""
+    r = 0
+    for n in sorted(nums):
+        r = rothash_py(r, n)
+    return r
+
+
+def solve_high16(rng, used):
+    """Two 2-member definitions {a,b}, {c,d} (a<b, c<d) whose 32-bit hashes differ, but only in the
+    HIGH 16 bits: h1 xor h2 = L(a xor c) xor b xor d, so d = b xor low16(L(a xor c)) with a xor c >= 8."""
+    while True:
+        a = rng.randrange(1, 30000)
+        c = a ^ rng.randrange(8, 4096)
+        b = rng.randrange(max(a, c) + 1, 65000)
+        d = b ^ (rot_l(a ^ c) & 0xffff)
+        quad = {a, b, c, d}
+        if c < 1 or not (c < d < 65536) or len(quad) != 4 or quad & used or quad & {8, 9, 10, 35}:
+            continue
+        x = flat_hash([a, b]) ^ flat_hash([c, d])
+        if x & 0xffff == 0 and x >> 16:
+            return a, b, c, d
+
+
 def solve_collision(rng):
     """{a,b} and {c,d}, a<b, c<d, all different, with rothash(rothash(0,a),b) == rothash(rothash(0,c),d):
     d = L(a xor c) xor b (derived from c14_rothash_linear)."""
@@ -839,10 +902,17 @@ def gen_c14(rng, fixed_pair=True):
     def nest_pair(tag, depth, variant):
         cnts = [b.field("NUMINGROUP") for _ in range(depth)]
         outer = [[b.field("STRING"), b.field("INT")] for _ in range(depth - 1)]
-        inner = [b.field("STRING"), b.field("PRICE"), b.field("INT")]
+        if variant == "high16":
+            # nested definitions whose hashes differ only in the high 16 bits (solved from the linear form)
+            qa, qb, qc, qd = solve_high16(rng, b.used)
+            inner = [b.field("STRING", num=qa), b.field("INT", num=qb), b.field("STRING", num=qc), b.field("INT", num=qd)]
+        else:
+            inner = [b.field("STRING"), b.field("PRICE"), b.field("INT")]
 
         def build(which):
-            if variant == "member":
+            if variant == "high16":
+                leaf = [("f", inner[2 * which], True), ("f", inner[2 * which + 1], False)]
+            elif variant == "member":
                 leaf = [("f", inner[0], True), ("f", inner[1] if which == 0 else inner[2], False)]
             elif variant == "added":
                 leaf = [("f", inner[0], True), ("f", inner[1], False)] + ([("f", inner[2], False)] if which else [])
@@ -858,6 +928,8 @@ def gen_c14(rng, fixed_pair=True):
     nest_pair("NestFlag", 2, "flag")
     nest_pair("DeepMember", 3, "member")
     nest_pair("DeepAdded", 3, "added")
+    nest_pair("NestHigh", 2, "high16")
+    nest_pair("DeepHigh", 3, "high16")
     # controls: identical definitions (sharing is legitimate), and different members (no sharing)
     cnt = b.field("NUMINGROUP")
     m = [b.field("STRING"), b.field("INT")]
